@@ -706,6 +706,8 @@ class Interp:
 
     # -- library methods -------------------------------------------------------
     def call_libmethod(self, recv, name, args, kwargs, node):
+        if isinstance(recv, (bool, UnknownBool)) and name in ("any", "all", "item"):
+            return recv
         if isinstance(recv, Term):
             if ("Term", name) in self.libmeth:
                 return self.libmeth[("Term", name)](self, recv, args, kwargs, node)
@@ -1048,6 +1050,8 @@ class Interp:
 
     # -- attribute access ----------------------------------------------------------
     def getattr_(self, v, name, node):
+        if isinstance(v, (bool, UnknownBool)) and name in ("any", "all", "item"):
+            return LibMethod(v, name)
         if isinstance(v, Term):
             if ("Term", name) in self.libattr:
                 return self.libattr[("Term", name)](self, v, node)
@@ -1467,6 +1471,11 @@ class Interp:
                 return Opaque("-" + v.dotted)
         if isinstance(node.op, ast.UAdd):
             return v
+        if isinstance(node.op, ast.Invert) and type(v).__name__ == "Vec":
+            from .libsum import Vec
+            return Vec([not self.truth(x, node) for x in v.items])
+        if isinstance(node.op, ast.Invert) and isinstance(v, (bool, UnknownBool)):
+            return not self.truth(v, node)
         if isinstance(node.op, ast.Invert) and isinstance(v, Mask):
             return Mask(f"~{v.desc}")
         self.err(node, f"unary {type(node.op).__name__} on {v!r}")
@@ -1853,6 +1862,8 @@ class Interp:
 
         def b_float(I, a, k, n):
             v = a[0]
+            if isinstance(v, Term):
+                return Term("float", [v])
             if isinstance(v, Num) or _is_sym(v):
                 return v
             if isinstance(v, bool):
@@ -1874,6 +1885,8 @@ class Interp:
 
         def b_str(I, a, k, n):
             v = a[0] if a else ""
+            if isinstance(v, Term):
+                return Term("str", [v])
             if isinstance(v, str):
                 return v
             if v is None:
